@@ -59,7 +59,7 @@ func c11R1(c *Ctx, r *Report, rule string) {
 	// the goroutine is started on every path after the successful +1
 	var goi *ssa.Go
 	for _, ci := range callsIn(cf) {
-		if g, ok := ci.(*ssa.Go); ok && closureOf(g.Call.Value) == cl {
+		if g, ok := ci.(*ssa.Go); ok && (closureOf(g.Call.Value) == cl || g.Call.StaticCallee() == cl) {
 			goi = g
 		}
 	}
@@ -78,6 +78,15 @@ func c11R1(c *Ctx, r *Report, rule string) {
 	r.check(leak == nil, rule, name, "+1 always paired", c.ipos(plus[0]), "after a successful +1 the forgetter is always started", "a path remembers the failure (+1) and returns without starting the forgetter: the upstream never comes back")
 	// same peer
 	same := derivesFrom(minus[0].Common().Args[0], rootOf(plus[0].Common().Args[0])) || rootOf(minus[0].Common().Args[0]) == rootOf(plus[0].Common().Args[0])
+	if !same {
+		// the forgetter is a function of its own: its peer parameter is what the go statement passes
+		if pp, ok := rootOf(minus[0].Common().Args[0]).(*ssa.Parameter); ok && goi.Call.StaticCallee() == cl {
+			if idx := paramIndex(cl, pp); idx >= 0 && idx < len(goi.Call.Args) {
+				a := goi.Call.Args[idx]
+				same = rootOf(a) == rootOf(plus[0].Common().Args[0]) || derivesFrom(a, rootOf(plus[0].Common().Args[0]))
+			}
+		}
+	}
 	r.check(same, rule, fname(cl), "same peer", c.ipos(minus[0]), "-1 is applied to the peer that got the +1", "the -1 is applied to a different peer than the +1")
 	// in the closure: every path from entry to return passes countFail(-1) (panic/recover block aside)
 	skip := pathFromEntryAvoiding(cl, func(in ssa.Instruction) bool {
